@@ -8,7 +8,7 @@ CHECK = {'pkgs': ['core/aggsigdb'],
  'engine': 'schedx',
  'technique': 'stateless model checking of the real code: exhaustive preemption-bounded DFS over thread interleavings under a controlled scheduler '
               '(synctest quiescence), state-key pruning',
- 'claim': 'every interleaving (quick: <=2 preemptions; thorough: unbounded) of 2-6 threads doing Await/Store/cancel/expiry on both real '
+ 'claim': 'every interleaving (preemption bound iterated 0,1,2,3, then unbounded, in both tiers; quick: 17 scenarios of 2-5 threads, thorough: + two 5-6 thread scenarios) of 2-6 threads doing Await/Store/cancel/expiry on both real '
           'implementations, scheduling points at every lock acquire/release; oracle: stored-value, conflict rejection, terminal-state liveness (no '
           'reader blocked while its key is in the store), exact virtual-time promptness',
  'trusted': 'testing/synctest quiescence detection, the vsync lock shim and the runtime determinism overlay; assumes no unsynchronised shared access '
